@@ -163,14 +163,32 @@ def run_harness(binary, lines, tag):
     n = max(1, min(JOBS, len(lines) // 50 + 1))
     shards = [lines[i::n] for i in range(n)]
 
+    def run_lines(ls, path, timeout):
+        with open(path, "w") as f:
+            f.write("\n".join(ls) + "\n")
+        try:
+            r = subprocess.run([binary, path], stdout=subprocess.PIPE, stderr=subprocess.PIPE, text=True, timeout=timeout)
+        except subprocess.TimeoutExpired:
+            return None
+        return r.stdout if r.returncode == 0 else None
+
     def one(i):
         p = os.path.join(BUILD, "cases", f"in_{tag}_{i}.txt")
-        with open(p, "w") as f:
-            f.write("\n".join(shards[i]) + "\n")
-        r = subprocess.run([binary, p], stdout=subprocess.PIPE, stderr=subprocess.PIPE, text=True, timeout=3000)
-        if r.returncode != 0:
-            raise RuntimeError(f"harness crashed on shard {p}: rc={r.returncode}\n{r.stderr[-2000:]}")
-        return r.stdout
+        out = run_lines(shards[i], p, max(1200, len(shards[i]) // 2))
+        if out is not None:
+            return out
+        # the process died (abort, stack overflow, ...) or hung: run the lines one by one; a line that kills or
+        # hangs the process is observed as the panic code
+        log(f"harness shard {p} crashed or timed out; isolating")
+        outs, nfail = [], 0
+        for j, ln in enumerate(shards[i]):
+            o = run_lines([ln], p + f".{j}", 120) if nfail < 5 else None
+            if o is None:
+                nfail += 1
+                toks = ln.split()
+                o = f"{toks[0]} {toks[1]} | {PANIC}\n"
+            outs.append(o)
+        return "".join(outs)
 
     res = {}
     with ThreadPoolExecutor(n) as ex:
@@ -216,35 +234,53 @@ def run_coq(fam, cases, tag, budget_numbers=12000):
     if cur:
         shards.append(cur)
 
-    def one(i):
-        name = f"cases_{tag}_{fam.name}_{i}"
+    def eval_cases(cs, name, timeout):
+        """evaluate a list of cases in one coqc run; None if coqc fails or exceeds the timeout"""
         p = os.path.join(BUILD, "coqcases", name + ".v")
         with open(p, "w") as f:
             f.write(f"From BaoV Require Import {fam.module}.\nOpen Scope N_scope.\n")
-            for j, (cid, args, obs) in enumerate(shards[i]):
+            for j, (cid, args, obs) in enumerate(cs):
                 f.write(f"Definition c{j} : case := ({cid}, {coq_list(args)}, {coq_list(obs)}).\n")
-            names = [f"c{j}" for j in range(len(shards[i]))]
+            names = [f"c{j}" for j in range(len(cs))]
             groups = [names[k:k + 200] for k in range(0, len(names), 200)]
             f.write("Definition cases : list case := " +
                     " ++ ".join("[" + ";".join(g) + "]" for g in groups) + ".\n")
             f.write(f"Eval vm_compute in (verdicts {fam.run} {fam.holds} cases).\n")
-        r = subprocess.run(f"ulimit -s unlimited 2>/dev/null; timeout 1500 coqc -q -noglob -Q {COQ} BaoV {p}",
+        r = subprocess.run(f"ulimit -s unlimited 2>/dev/null; timeout {timeout} coqc -q -noglob -Q {COQ} BaoV {p}",
                            shell=True, stdout=subprocess.PIPE, stderr=subprocess.STDOUT, text=True,
                            cwd=os.path.join(BUILD, "coqcases"))
-        if r.returncode != 0:
-            raise RuntimeError(f"coqc failed on {p}:\n{r.stdout[-3000:]}")
-        m = re.search(r"=\s*(\[.*\])\s*:\s*list", r.stdout, re.S)
-        if not m:
-            raise RuntimeError(f"cannot parse coqc output for {p}:\n{r.stdout[-2000:]}")
-        out = {}
-        for a, b in re.findall(r"\((\d+),\s*(\d+)\)", m.group(1)):
-            out[int(a)] = int(b)
         for ext in (".vo", ".vok", ".vos", ".glob"):
             try:
                 os.remove(os.path.join(BUILD, "coqcases", name + ext))
             except OSError:
                 pass
-        return out
+        if r.returncode != 0:
+            return None, r.stdout[-3000:]
+        m = re.search(r"=\s*(\[.*\])\s*:\s*list", r.stdout, re.S)
+        if not m:
+            return None, r.stdout[-2000:]
+        out = {}
+        for a, b in re.findall(r"\((\d+),\s*(\d+)\)", m.group(1)):
+            out[int(a)] = int(b)
+        return out, ""
+
+    def solve(cs, name, timeout):
+        """verdicts of the cases; a case on which the model / checker evaluation itself fails or does not
+        terminate in time gets verdict 4 (isolated by bisection)"""
+        out, msg = eval_cases(cs, name, timeout)
+        if out is not None:
+            return out
+        if len(cs) == 1:
+            log(f"model evaluation failed on case {cs[0][0]} of family {fam.name}: {msg[-400:]}")
+            return {cs[0][0]: 4}
+        h = len(cs) // 2
+        res = {}
+        res.update(solve(cs[:h], name + "a", max(90, timeout // 3)))
+        res.update(solve(cs[h:], name + "b", max(90, timeout // 3)))
+        return res
+
+    def one(i):
+        return solve(shards[i], f"cases_{tag}_{fam.name}_{i}", 1500)
 
     verd = {}
     if not shards:
